@@ -544,10 +544,11 @@ theorem rget_prePut (cfg : Cfg) (hs : cfg.sidecar = false) (rq : Req) (key : Pat
     intro fsx hx c _
     rw [rget_run_of_not_touches _ _ fsx, hx]
     split
-    · refine hnt _ (Or.inr ?_) ((writes_deleteNullVersion cfg key fsx).mono (fun q h => Or.inl h))
+    · refine hnt _ (Or.inr ?_) ((writes_deleteNullVersion cfg hs key fsx).mono (fun q h => Or.inl h))
       intro s hs' i hi
       unfold deleteNullVersion at hs'
       dsimp only at hs'
+      rw [deleteAttrs_xattr cfg hs, List.append_nil] at hs'
       split at hs'
       · simp only [List.mem_singleton] at hs'; subst hs'; simp [Step.anons] at hi
       · cases hs'
@@ -658,7 +659,7 @@ theorem writes_prePut_fine (cfg : Cfg) (hs : cfg.sidecar = false) (rq : Req) (ke
     exact Or.inr (Or.inl (by simpa [Step.writes] using hq))
   · exact WritesIn.ite ((writes_archive_xattr cfg hs rq key _).mono (fun q h => Or.inr (Or.inr (Or.inl h)))) (WritesIn.nil _)
   · exact (writes_mkdirAll _ _).mono (fun q h => Or.inr (Or.inr (Or.inr h.1)))
-  · exact WritesIn.ite ((writes_deleteNullVersion cfg key _).mono (fun q h => Or.inr (Or.inr (Or.inl h)))) (WritesIn.nil _)
+  · exact WritesIn.ite ((writes_deleteNullVersion cfg hs key _).mono (fun q h => Or.inr (Or.inr (Or.inl h)))) (WritesIn.nil _)
   · exact WritesIn.nil _
   · exact (writes_storeAttrs_xattr cfg hs _ _ _ _).mono (fun q h => Or.inr (Or.inl h))
 
